@@ -90,6 +90,72 @@ def fields_of(v):
     return dict(v[3]) if v[0] == "ctor" and len(v) > 3 else {}
 
 
+class ProgramIndex:
+    """All non-test functions of the analysed tree, so that a helper the evaluated code calls - one that a rule did not
+    name when it was written, e.g. a method extracted by a refactoring - is still interpreted instead of being Unknown.
+    Resolution is by receiver type (enum of the value's variant, or struct of that name) for methods, by `Type::name` or
+    by a name that is unique in the calling file / crate for paths; an ambiguous name is never guessed."""
+
+    def __init__(self, ast):
+        self.by_qual, self.by_name, self.variant_enum, self.structs = {}, {}, {}, set()
+        for f in ast.fns:
+            if f.is_test() or f.body is None:
+                continue
+            if f.impl_self:
+                t = f.impl_self.split("<")[0].split("::")[-1].lstrip("&")
+                self.by_qual.setdefault((t, f.name), []).append(f)
+            self.by_name.setdefault(f.name, []).append(f)
+        for (path, name), e in ast.enums.items():
+            for v in e.get("variants", []):
+                self.variant_enum.setdefault(v["name"] if isinstance(v, dict) else v, set()).add(name)
+        for (path, name), e in ast.structs.items():
+            self.structs.add(name)
+
+    @staticmethod
+    def crate_of(file):
+        return file.split("/src/")[0] if file else None
+
+    def _pick(self, cands, cur_file):
+        cands = [f for f in cands if not any("feature" in c and "not" in c for c in f.cfgs)] or cands
+        if len(cands) == 1:
+            return cands[0]
+        same = [f for f in cands if f.file == cur_file]
+        if len(same) == 1:
+            return same[0]
+        crate = [f for f in cands if self.crate_of(f.file) == self.crate_of(cur_file)]
+        if len(crate) == 1:
+            return crate[0]
+        return None
+
+    def method(self, ctor, name, cur_file):
+        types = set(self.variant_enum.get(ctor, ()))
+        if ctor in self.structs:
+            types.add(ctor)
+        cands = [f for t in types for f in self.by_qual.get((t, name), []) if f.node["sig"]["inputs"] and _is_self_param(f.node["sig"]["inputs"][0])]
+        return self._pick(cands, cur_file) if cands else None
+
+    def path(self, segs, cur_file, nargs):
+        if len(segs) >= 2 and (segs[-2], segs[-1]) in self.by_qual:
+            return self._pick([f for f in self.by_qual[(segs[-2], segs[-1])] if len(f.node["sig"]["inputs"]) == nargs], cur_file)
+        if len(segs) == 1 or segs[-2] in ("self", "super", "crate") or segs[-2][:1].islower():
+            cands = [f for f in self.by_name.get(segs[-1], []) if not f.impl_self and len(f.node["sig"]["inputs"]) == nargs]
+            return self._pick(cands, cur_file) if cands else None
+        return None
+
+
+def _is_self_param(p):
+    pat = p.get("pat") or {}
+    return p.get("self") or (pat.get("k") == "PIdent" and pat.get("name") == "self") or (pat.get("k") == "PRef" and (pat.get("pat") or {}).get("name") == "self")
+
+
+PROGRAM = None
+
+
+def set_program(ast):
+    global PROGRAM
+    PROGRAM = ProgramIndex(ast)
+
+
 class AEval(dtable.Eval):
     def __init__(self, inputs=(), funcs=None, consts=None, builtins=None):
         super().__init__(list(inputs))
@@ -573,6 +639,9 @@ class AEval(dtable.Eval):
         if not hasattr(self, "_impl_stack"):
             self._impl_stack = []
         self._impl_stack.append((fn.impl_self or "").split("<")[0].split("::")[-1])
+        if not hasattr(self, "_file_stack"):
+            self._file_stack = []
+        self._file_stack.append(fn.file)
         try:
             try:
                 return self._coerce_ret(fn, self.ex(fn.body, env))
@@ -581,6 +650,7 @@ class AEval(dtable.Eval):
         finally:
             self.depth -= 1
             self._impl_stack.pop()
+            self._file_stack.pop()
             self._callee_env = (fn, env)
 
     def _write_back(self, arg_nodes, env):
@@ -828,6 +898,29 @@ class AEval(dtable.Eval):
             return (cur[:-1], C("Some", cur[-1])) if cur else (cur, C("None"))
         if m == "clear" and not vals:
             return [], UNIT
+        if m == "pop_front" and not vals:
+            return (cur[1:], C("Some", cur[0])) if cur else (cur, C("None"))
+        ismap = bool(cur) and all(x[0] == "tuple" and len(x[1]) == 2 for x in cur)
+        if m in ("remove", "swap_remove", "remove_entry", "shift_remove", "take") and len(vals) == 1:
+            k = vals[0]
+            if k[0] == "int" and not (ismap and any(x[1][0][0] == "int" for x in cur)) and not (cur and not ismap and all(x[0] == "int" for x in cur) and m != "swap_remove"):
+                if not 0 <= k[1] < len(cur):
+                    raise Ret(C("!panic"))
+                if m == "swap_remove":
+                    rest = cur[:k[1]] + cur[k[1] + 1:]
+                    if k[1] < len(rest):
+                        rest = rest[:k[1]] + [rest[-1]] + rest[k[1]:-1]
+                    return rest, cur[k[1]]
+                return cur[:k[1]] + cur[k[1] + 1:], cur[k[1]]
+            if ismap:
+                hit = [x for x in cur if x[1][0] == k]
+                rest = [x for x in cur if x[1][0] != k]
+                if m == "remove_entry":
+                    return rest, (C("Some", hit[0]) if hit else C("None"))
+                return rest, (C("Some", hit[0][1][1]) if hit else C("None"))
+            if m == "take":
+                return [x for x in cur if x != k], (C("Some", k) if k in cur else C("None"))
+            return [x for x in cur if x != k], B(k in cur)       # set
         raise Unknown("mutation " + m)
 
 
@@ -900,6 +993,12 @@ class AEval(dtable.Eval):
                 return DEFAULT
             if last == "from" and len(args) == 1 and args[0][0] == "bool" and re.match(r"^(usize|u8|u16|u32|u64|u128|isize|i8|i16|i32|i64|i128)::from$", f["path"]):
                 return I(1 if args[0][1] else 0)
+            if PROGRAM is not None and not last[:1].isupper():
+                pf = PROGRAM.path(segs if segs[0] != "Self" or not getattr(self, "_impl_stack", None) else [self._impl_stack[-1]] + segs[1:], self._cur_file(), len(args))
+                if pf is not None:
+                    v = self._call_program_fn(pf, args)
+                    self._write_back(e["args"], env)
+                    return v
             if last[:1].isupper():
                 return C(last, *args)
             if f["path"] in ("Vec::new", "Vec::with_capacity", "BTreeMap::new", "BTreeSet::new", "HashMap::new", "HashSet::new", "VecDeque::new"):
@@ -928,7 +1027,10 @@ class AEval(dtable.Eval):
     def _inplace(self, m, part, args):
         import functools
         if m in ("retain", "retain_mut"):
-            return [x for x in part if self._b(self.apply(args[0], [x]))]
+            f = args[0]
+            if f[0] == "closure" and len(f[1]["inputs"]) == 2:      # maps: the closure takes (key, value)
+                return [x for x in part if self._b(self.apply(f, list(x[1]) if x[0] == "tuple" and len(x[1]) == 2 else [x]))]
+            return [x for x in part if self._b(self.apply(f, [x]))]
         if m in ("sort", "sort_unstable"):
             return sorted(part, key=self._key)
         if m in ("sort_by", "sort_unstable_by"):
@@ -1013,7 +1115,13 @@ class AEval(dtable.Eval):
         if m == "clear" and not e["args"] and is_node(rnode) and rnode["k"] == "Path" and rnode["path"] in env and env[rnode["path"]][0] == "list":
             env[rnode["path"]] = L()
             return UNIT
-        if m in ("push", "push_back", "push_front", "insert", "extend", "pop", "pop_back", "clear") and m not in self.builtins and m not in self.mut_builtins:
+        if m in ("remove", "swap_remove", "remove_entry", "pop_front") and m not in self.builtins and m not in self.mut_builtins and m not in self.funcs \
+                and is_node(rnode) and rnode["k"] == "Path" and rnode["path"] in env and env[rnode["path"]][0] == "list" and not isinstance(env[rnode["path"]], MutRef):
+            vals = [self.ex(a, env) for a in e["args"]]
+            newl, res = self._collection_op(m, env[rnode["path"]][1], vals)
+            env[rnode["path"]] = L(*newl)
+            return res
+        if m in ("push", "push_back", "push_front", "insert", "extend", "pop", "pop_back", "clear", "remove", "swap_remove", "remove_entry", "pop_front") and m not in self.builtins and m not in self.mut_builtins:
             # on a field of a variable (`cfg.locales.push(x)`), or through `opt.get_or_insert_with(..)` on an Option place
             tgt = rnode
             while is_node(tgt) and tgt["k"] in ("Paren", "Unary", "Ref"):
@@ -1446,6 +1554,12 @@ class AEval(dtable.Eval):
         if r[0] == "atom" and not r[1].startswith("expr:"):
             # an opaque value: the result is named after the receiver and the method (arguments are not interpreted)
             return A("%s.%s" % (r[1], m))
+        if r[0] == "ctor" and PROGRAM is not None:
+            fn = PROGRAM.method(r[1], m, self._cur_file())
+            if fn is not None and len(fn.node["sig"]["inputs"]) == len(args) + 1:
+                v = self._call_program_fn(fn, [r] + args)
+                self._write_back([rnode] + list(e["args"]), env)
+                return v
         raise Unknown("method %s on %s" % (m, r[:2]))
 
     def _str_method(self, m, t, args, e):
@@ -1708,6 +1822,27 @@ class AEval(dtable.Eval):
             return self.ex(n["then"], env)
         return self.ex(n["else"], env) if n.get("else") else UNIT
 
+    def _cur_file(self):
+        st = getattr(self, "_file_stack", None)
+        return st[-1] if st else None
+
+    def _call_program_fn(self, fn, args):
+        """a function found through the program index (not named by the rule): same calling convention as call_fn"""
+        if self.depth > 12:
+            raise Unknown("recursion too deep")
+        if len(fn.node["sig"]["inputs"]) != len(args):
+            raise Unknown("arity of " + fn.name)
+        self.depth += 1
+        saved = getattr(self, "last_env", None)
+        try:
+            v = self.call_fn_obj(fn, args)
+            self._callee_env = (fn, self.last_env)
+            return v
+        finally:
+            self.depth -= 1
+            if saved is not None:
+                self.last_env = saved
+
     def run_fn(self, fn, args):
         """evaluate astlib.Fn `fn` on argument values; returns the value (or 'UNKNOWN: why' string)"""
         try:
@@ -1727,12 +1862,16 @@ class AEval(dtable.Eval):
         if not hasattr(self, "_impl_stack"):
             self._impl_stack = []
         self._impl_stack.append((fn.impl_self or "").split("<")[0].split("::")[-1])
+        if not hasattr(self, "_file_stack"):
+            self._file_stack = []
+        self._file_stack.append(fn.file)
         try:
             return self._coerce_ret(fn, self.ex(fn.body, env))
         except Ret as r:
             return r.value
         finally:
             self._impl_stack.pop()
+            self._file_stack.pop()
 
 
 def _tok_iter(tokens):
